@@ -26,7 +26,7 @@ if TYPE_CHECKING:
 class CycleNode(Node):
     """The standard _cycle_ tag."""
 
-    __slots__ = ("name", "items", "cycle_hash")
+    __slots__ = ("name", "items")
 
     def __init__(
         self, token: TokenT, name: str | None, items: list[Expression]
@@ -34,8 +34,16 @@ class CycleNode(Node):
         super().__init__(token)
         self.name = name
         self.items = tuple(items)
-        self.cycle_hash = hash((self.name, self.items))
         self.blank = False
+
+    @property
+    def cycle_hash(self) -> int:
+        """The key of this tag's cycle group.
+
+        String hashes differ between processes, so it is not stored (and pickled)
+        with the node.
+        """
+        return hash((self.name, self.items))
 
     def __str__(self) -> str:
         assert isinstance(self.token, TagToken)
